@@ -369,7 +369,7 @@ inline void Run(const Args& args, Result& res) {
     TS init;
     std::memset(&init, 0, sizeof(init));
     // L1: full alphabet incl. free-running and 32-bit start values, depth-bounded
-    int depth = args.thorough() ? 7 : 5;
+    int depth = args.thorough() ? 10 : 7;
     eng.Explore(init, true, depth, 30000000ull, "L1_full_alphabet");
     // L2: modes {single,auto,event}, start in 0..3 -> finite machine, explored to fixpoint
     eng.Explore(init, false, 1000, 30000000ull, "L2_fixpoint");
